@@ -5,7 +5,7 @@ from .common import *   # noqa: F401,F403
 from . import instr_gen as ig
 from . import C19 as c19
 
-LEAF = ['Leaf_chart', 'Leaf_fromfile', 'Leaf_dispatch', 'Leaf_tracks', 'Leaf_bpm', 'Leaf_sustain']      # translated functions this property's model relies on (Tie/<name>.v)
+LEAF = ['Leaf_chart', 'Leaf_fromfile', 'Leaf_meta', 'Leaf_dispatch', 'Leaf_tracks', 'Leaf_bpm', 'Leaf_sustain']      # translated functions this property's model relies on (Tie/<name>.v)
 RULE = ("texts obtained from well-formed charts (all section kinds, several tracks, long charts whose events lie beyond 24 h) by 1-4 mutations: line deletion, duplication, swap of neighbouring "
         "lines, single-character edits, brace / bracket damage ('{ ' with trailing blank, deleted '{', duplicated header, blank or comment line after a header), digit-run edits within 8 digits; "
         "and texts assembled from arbitrary fragments of all section kinds; numeric tokens of at most 8 digits (a time-signature EXPONENT is kept below 1024: 2**n for an 8-digit n can neither be rendered nor evaluated in reasonable time). Observed: the exception class escaping Chart.from_file (compared exactly with the "
